@@ -200,7 +200,7 @@ def render_stmt(s, ind):
     if k == "for":
         return [f"{pad}for {s['var']} in {render_expr(s['iter'])}:"] + render_block(s["body"], ind + 1)
     if k == "setidx":
-        return [f"{pad}{s['name']}[{render_expr(s['idx'])}] = {render_expr(s['e'])}"]
+        return [f"{pad}{s['name']}[{render_expr(s['idx'])}] {s.get('op', '')}= {render_expr(s['e'])}"]
     if k == "setfield":
         return [f"{pad}{render_expr(s['target'])} {s['op']}= {render_expr(s['e'])}"]
     if k == "matchs":
@@ -411,7 +411,10 @@ def to_project_stmt(s):
                     "e": {"k": "bin", "op": s["op"], "l": to_project_expr(s["target"]), "r": to_project_expr(s["e"])}}
         return {"k": "fassign", "obj": to_project_expr(s["target"]["obj"]), "field": s["target"]["field"], "e": to_project_expr(s["e"])}
     if k == "setidx":
-        return {"k": "iassign", "obj": {"k": "ident", "name": s["name"]}, "idx": to_project_expr(s["idx"]), "e": to_project_expr(s["e"])}
+        e = to_project_expr(s["e"])
+        if s.get("op"):      # the parser desugars `xs[i] op= e` into `xs[i] = xs[i] op e`
+            e = {"k": "bin", "op": s["op"], "l": {"k": "index", "obj": {"k": "ident", "name": s["name"]}, "idx": to_project_expr(s["idx"])}, "r": e}
+        return {"k": "iassign", "obj": {"k": "ident", "name": s["name"]}, "idx": to_project_expr(s["idx"]), "e": e}
     if k == "matchs":
         return {"k": "expr", "e": {"k": "match", "subj": to_project_expr(s["subj"]),
                                    "arms": [{"k": "arm", "pat": to_project_pat(a["pat"]),
